@@ -131,3 +131,28 @@ Theorem C02_lex_emit_core2_full_refuted : ~ lex_emit_core2_full.
 Proof. exact lex_emit_core2_full_refuted. Qed.
 Theorem C02_text_roundtrip_core2_nonvacuous : core2_doc ex_all = true /\ lex_safe2_doc ex_all = true.
 Proof. exact (conj ex_all_core ex_all_safe). Qed.
+
+From OV Require Rt.BareWordParse Rt.BareWordLex Rt.BareWord Rt.BareWordEx.
+(* TEXT LEVEL with BARE string values (core3): the emitter writes a string bare when needs_quotes is false and the key is
+   not an always-quote key; the lexer reads it as one IDENTIFIER / VARIABLE token and the parser returns the same string.
+   lex_safe3_doc excludes exactly: reserved-word segments (true.x, null-a, vs.x: the C04 clause-3 finding), wrong-case
+   literals and embedded _vs_ (lexer repairs), and multi-token bare strings (annotations, operator expressions). *)
+Theorem C02_text_roundtrip_core3 :
+  forall cls numcanon holo_ok strict sp d,
+    BareWordParse.core3_doc d = true -> BareWord.lex_safe3_doc d = true ->
+    TokRound2.nums_ok2_l numcanon TokRound2Ex.ex_idnum (dsections d) -> Forall (TokRound2.field_num_ok numcanon) (dmeta d) ->
+    exists warns, parse_model cls numcanon holo_ok strict (lines_of (emit sp d)) = PRDoc d [] warns /\ Forall advisory warns.
+Proof. exact BareWord.text_roundtrip_core3. Qed.
+Theorem C02_core3_readback_all_depths :
+  forall numcanon holo_ok strict sp alpha ml idnum (qa : str -> str -> BareWordParse.strk) (qi : str -> BareWordParse.strk),
+    (forall k s, qa k s = BareWordParse.QIdent -> has_annotation s = false) ->
+    (forall s, qi s = BareWordParse.QIdent -> has_annotation s = false) ->
+    forall d, BareWordParse.core3_doc d = true -> nums_ok2_l numcanon idnum (dsections d) -> Forall (field_num_ok numcanon) (dmeta d) ->
+    forall st0 ts tail, tail <> [] -> pbdepth st0 = 0%N -> Forall2 tmatch ts (BareWordParse.doc3_sh ml idnum qa qi d) -> ptoks st0 = ts ++ tail ->
+    exists st', parse_document numcanon holo_ok strict sp alpha st0 = POk d st' /\ wext2 st0 st'.
+Proof. exact BareWordParse.parse_core3_doc. Qed.
+Theorem C02_lex_emit_core3_full_refuted : ~ BareWordEx.lex_emit_core3_full.
+Proof. exact BareWordEx.lex_emit_core3_full_refuted. Qed.
+Theorem C02_text_roundtrip_core3_nonvacuous :
+  BareWordParse.core3_doc BareWordEx.ex_bare = true /\ BareWord.lex_safe3_doc BareWordEx.ex_bare = true.
+Proof. exact (conj BareWordEx.ex_bare_core BareWordEx.ex_bare_safe). Qed.
